@@ -310,6 +310,18 @@ def scriptSpec (ops : Array Op) (res : Array Seen) (late : List (Nat × Seen)) (
         tearArmed := tearArmed.filter (·.1 != op.x)
         if k ≥ 1 && k < 8 then tornAt := (op.x, i) :: tornAt
       | _, _ => pure ()
+  -- handle ↦ (id, op index of its creation), per end, from the Open results
+  let handles := fun (x : Nat) => (List.range ops.size).filterMap fun i =>
+    let op : Op := ops[i]!
+    if op.x == x && (op.kind == OpKind.open || op.kind == OpKind.dial) then
+      match res[i]! with | .conn h => some (h, op.id, i) | _ => none
+    else none
+  -- first op that injects or reveals any failure (close, cut, tear, an error result)
+  let firstFault : Nat := ((List.range ops.size).find? fun i =>
+    let op : Op := ops[i]!
+    op.kind == OpKind.cut || op.kind == OpKind.tear || op.kind == OpKind.closemux ||
+      op.kind == OpKind.closeconn || op.kind == OpKind.lclose ||
+      (match res[i]! with | .err k => k != "reserved" | _ => false)).getD ops.size
   for x in [0, 1] do
     -- when is end x known to be closed?  (first Read error on a conn that was not closed
     -- individually, or a returned mux Close)
@@ -349,6 +361,23 @@ def scriptSpec (ops : Array Op) (res : Array Seen) (late : List (Nat × Seen)) (
           -- script payloads are far below the socket buffer: a Write never waits for the peer
           out := fail out s!"op {i}: Write did not return" "C11:write-hangs"
         | .read | .readbg =>
+          -- completeness (C10): before anything failed, a Read for which the peer has
+          -- successfully written more frames than were read so far must not stay blocked
+          if i < firstFault && op.kind == OpKind.read then
+            match (handles x).find? (·.1 == op.h) with
+            | some (_, id, oi) =>
+              let peerHs := ((handles (1 - x)).filter (·.2.1 == id)).map (·.1)
+              let sentN := ((List.range i).filter fun j =>
+                let oj : Op := ops[j]!
+                j > oi && oj.x != x && oj.kind == OpKind.write && peerHs.contains oj.h &&
+                  (match res[j]! with | .ok _ => true | _ => false)).length
+              let gotN := ((List.range i).filter fun j =>
+                let oj : Op := ops[j]!
+                oj.x == x && oj.h == op.h && (oj.kind == OpKind.read || oj.kind == OpKind.readbg) &&
+                  (match final j with | .data _ _ => true | _ => false)).length
+              if sentN > gotN then
+                out := fail out s!"op {i}: Read blocked although {sentN} frames were written to id {id} and only {gotN} read: a frame was not delivered" "C10:frame-not-delivered"
+            | none => pure ()
           match closedAt with
           | some c =>
             let lateOpen := match openedAt.find? (·.1 == op.h) with
